@@ -90,14 +90,83 @@ pub fn run(ctx: &Ctx) -> i32 {
         }
     }
     let s2 = SubReport::new("foreign-histories", "B-style history on assets", "each asset after sign(ed25519), sign(rsa4096), clear, sign(ecdsa), and in each of these states after a signing attempt that fails: the rebuilt signature header and the untouched rest must satisfy every rule", b);
-    for s in [&s1, &s2] {
+    // the public SignatureHeaderBuilder driven directly: every sequence of ≤ 4 calls
+    let s3 = {
+        let mut c = Acc::new();
+        let base = crate::corpus::one_file().build(&env).unwrap_or_else(|e| crate::ctx::machinery(&format!("c09: {}", e)));
+        let w = crate::oracles::write_pkg(&base).unwrap_or_else(|e| crate::ctx::machinery(&format!("c09: {}", e)));
+        let (_, _, _, l) = vlib::refhdr::scan(&w).unwrap_or_else(|| crate::ctx::machinery("c09: built package cannot be scanned"));
+        let hdr_bytes = &w[l.hdr_off..l.payload_off];
+        let sha = hex::encode(<sha2::Sha256 as sha2::Digest>::digest(hdr_bytes));
+        let sigs: Vec<(&str, Vec<u8>)> = [("rsa4096", Key::Rsa4096), ("ed25519", Key::Ed25519), ("ecdsa-p256", Key::EcdsaP256)]
+            .iter()
+            .map(|(n, k)| (*n, rpm::signature::Signing::sign(&env.signer(*k), hdr_bytes, rpm::Timestamp(1_600_000_000)).unwrap_or_else(|e| crate::ctx::machinery(&format!("c09: sign: {}", e)))))
+            .collect();
+        const OPS: [&str; 5] = ["add_openpgp_signature(rsa4096)", "add_openpgp_signature(ed25519)", "add_openpgp_signature(ecdsa-p256)", "set_sha256_digest", "clear_signatures"];
+        let depth = if ctx.thorough() { 5 } else { 4 };
+        let mut rank = 0u64;
+        for len in 0..=depth {
+            for code in 0..5u64.pow(len) {
+                rank += 1;
+                c.evals += 1;
+                let seq: Vec<usize> = (0..len).map(|i| (code / 5u64.pow(i) % 5) as usize).collect();
+                let case = || json!({"SignatureHeaderBuilder": seq.iter().map(|o| OPS[*o]).collect::<Vec<_>>(), "then": "build(), put in place of the signature header of a built package, write"});
+                let r = vlib::report::catch(|| {
+                    let mut b = rpm::SignatureHeaderBuilder::new();
+                    for o in &seq {
+                        b = match o {
+                            0..=2 => b.add_openpgp_signature(sigs[*o].1.clone()),
+                            3 => b.set_sha256_digest(&sha),
+                            _ => b.clear_signatures(),
+                        };
+                    }
+                    let h = b.build()?;
+                    let mut p = base.clone();
+                    p.metadata.signature = h;
+                    let mut x = vec![];
+                    p.write(&mut x)?;
+                    Ok::<_, rpm::Error>(x)
+                });
+                match r {
+                    Err(pn) => c.viol(crate::common::panic_violation("signature-builder", &pn, case()).rank(rank)),
+                    Ok(Err(e)) => c.viol(Violation::new("signature-builder", format!("build / write fails: {}", e), case()).sig("clause", "operation-fails").rank(rank)),
+                    Ok(Ok(x)) => {
+                        if oracle_valid("signature-builder", &x, false, rank, &case, &mut c) {
+                            c.nontrivial += 1;
+                        }
+                        // what the calls say must be there: one OpenPGP string per signature added since the last clear
+                        let live = seq.iter().fold(0usize, |n, o| match o {
+                            0..=2 => n + 1,
+                            4 => 0,
+                            _ => n,
+                        });
+                        let got = vlib::refhdr::scan(&x).map(|(_, sig, _, _)| {
+                            sig.entries.iter().skip(1).find(|e| e.tag == 278).and_then(|e| vlib::refhdr::value(e, &sig.store).ok()).map(|v| match v {
+                                vlib::refhdr::Val::StrArray(a) => a.len(),
+                                _ => usize::MAX,
+                            })
+                        });
+                        if got != Some(if live == 0 { None } else { Some(live) }) {
+                            c.viol(Violation::new("signature-builder", format!("{} signature(s) added since the last clear, the OpenPGP tag of the emitted signature header holds {:?}", live, got), case()).sig("clause", "signature-count").rank(rank));
+                        }
+                        c.count(&format!("{} live signature(s)", live));
+                        if rank % 97 == 0 {
+                            c.sample(rank, case);
+                        }
+                    }
+                }
+            }
+        }
+        SubReport::new("signature-builder", "A", &format!("the public SignatureHeaderBuilder driven directly: every sequence of ≤ {} calls over {:?} (real signatures over the package's header), built, put in place of a built package's signature header and written: every structural rule (tags strictly ascending, so no legacy tag twice), and one OpenPGP string per signature added since the last clear", depth, OPS), c)
+    };
+    for s in [&s1, &s2, &s3] {
         if s.acc.nontrivial == 0 && s.acc.viols.is_empty() {
             crate::ctx::machinery(&format!("sub-check {} judged nothing: vacuous", s.name));
         }
     }
     ctx.finish(
         "exploration",
-        vec![s0, s1, s2],
+        vec![s0, s1, s2, s3],
         &[
             "the validator (vcheck/src/validator.rs) implements the rules listed in DESIGN.md A.5; it is cross-checked against the six rpmbuild-produced assets and hand-broken packages on every run",
             "only rules that all assets satisfy and that the property lists are enforced",
